@@ -1,6 +1,6 @@
 (* Proofs/GenGf2Proofs.v — simulation between the index-based loops generated from the source and the structural recursion of
    Model/Gf2.v. *)
-From Coq Require Import List Bool Arith Lia.
+From Coq Require Import List Bool Arith ZArith Lia.
 From SageVerif Require Import Model.Gf2 Model.NpIdioms Gen.GenGf2 Proofs.GenGf2Spec.
 Import ListNotations.
 
@@ -244,4 +244,52 @@ Lemma gen_nullspace_exact : gen_nullspace_exact_stmt.
 Proof.
   intros n A R piv W N H x Lx. rewrite gen_rref_equiv in H. rewrite gen_nullspace_equiv.
   exact (proj1 (nullspace_exact n A R piv W N H) x Lx).
+Qed.
+
+(* ---------------------------------------------------------------- sign patterns *)
+Lemma existsb_map {X Y} (f : Y -> bool) (g : X -> Y) l : existsb f (map g l) = existsb (fun x => f (g x)) l.
+Proof. induction l as [|x l IH]; [reflexivity|]. cbn [map existsb]. rewrite IH. reflexivity. Qed.
+
+Lemma length_select {X} (idx : list nat) (l : list X) d : length (select idx l d) = length idx.
+Proof. unfold select. apply map_length. Qed.
+
+Lemma if_len_zero {X Y} (l : list X) (a b : Y) :
+  (if Nat.eqb (length l) 0 then a else b) = match l with [] => a | _ :: _ => b end.
+Proof. destruct l; reflexivity. Qed.
+
+Lemma gen_lsn_equiv : gen_lsn_equiv_stmt.
+Proof.
+  intros n alpha moments. unfold gen_linear_system_negatives, linear_system_negatives.
+  set (a := parmat alpha).
+  set (U := filter (fun i => negb (Z.eqb (nth i moments 0%Z) 0) && existsb (fun e => e) (nth i a [])) (seq 0 (length a))).
+  rewrite if_len_zero.
+  assert (EW : filter (fun j => existsb (fun i => bit j (nth i a [])) U) (seq 0 n) =
+               filter (fun j => existsb (fun r => bit j r) (select U a [])) (seq 0 n)).
+  { apply filter_ext. intro j. unfold select. rewrite existsb_map. reflexivity. }
+  rewrite EW.
+  set (W := filter (fun j => existsb (fun r => bit j r) (select U a [])) (seq 0 n)).
+  rewrite if_len_zero.
+  rewrite gen_linsolve_equiv.
+  - destruct U; [reflexivity|]. destruct W; reflexivity.
+  - rewrite Forall_map. rewrite Forall_forall. intros r _. apply length_select.
+  - rewrite !map_length. unfold select. rewrite map_length. reflexivity.
+Qed.
+
+Lemma gen_signs_equiv : gen_signs_equiv_stmt.
+Proof.
+  intros n alpha moments heuristic all_signs. unfold gen_variable_sign_patterns, variable_sign_patterns.
+  rewrite gen_lsn_equiv. destruct (linear_system_negatives n alpha moments) as [x|a1 U W|x0 a1 U W].
+  - reflexivity.
+  - destruct heuristic; reflexivity.
+  - destruct all_signs; [|reflexivity].
+    rewrite gen_rref_equiv. destruct (mod2rref false a1) as [arref p].
+    rewrite gen_nullspace_equiv. reflexivity.
+Qed.
+
+Lemma gen_signs_exact : gen_signs_exact_stmt.
+Proof.
+  intros n alpha moments W L E. split; [|split].
+  - intros all_signs ys H. rewrite gen_signs_equiv in H. exact (signs_sound n alpha moments all_signs ys W L E H).
+  - intros heur ys y H Ly C R. rewrite gen_signs_equiv in H. exact (signs_complete n alpha moments heur ys y W L E H Ly C R).
+  - intro all_signs. rewrite gen_signs_equiv. exact (signs_none_iff n alpha moments all_signs W L E).
 Qed.
